@@ -25,8 +25,9 @@ def ob_tree_offsets(ctx, res):
     wt = ctx.ast.fn(W, "write_tree")
     t = up(wt.body)
     opt = [nm for nm, ty in wt.params if "BBIWriteOptions" in ty][0]
-    f1 = re.search(r"let (\w+): u64 = NODEHEADER_SIZE \+ NON_LEAFNODE_SIZE \* u64::from\(%s\.block_size\);" % opt, t)
-    f2 = re.search(r"let (\w+): u64 = NODEHEADER_SIZE \+ LEAFNODE_SIZE \* u64::from\(%s\.block_size\);" % opt, t)
+    BS = r"(?:%s\.block_size|rtree_block_size\(%s\))" % (opt, opt)   # the bounded helper is checked by C05-N1
+    f1 = re.search(r"let (\w+): u64 = NODEHEADER_SIZE \+ NON_LEAFNODE_SIZE \* u64::from\(%s\);" % BS, t)
+    f2 = re.search(r"let (\w+): u64 = NODEHEADER_SIZE \+ LEAFNODE_SIZE \* u64::from\(%s\);" % BS, t)
     if not f1 or not f2:
         res.fail("treeOffsets/full-sizes", wt, "full node sizes must be NODEHEADER_SIZE + ITEM_SIZE * block_size for both node kinds")
         return
@@ -62,3 +63,69 @@ def ob_tree_offsets(ctx, res):
         res.fail("treeOffsets/base", wr, "the first level must start at the position right after the 48-byte header")
         return
     res.ok(wr, "write_rtreeindex: level sizes first; levels written root -> leaves; each level's child base = end of header + sizes of the levels already placed")
+
+
+def ob_node_counts(ctx, res):
+    """C05-N1: the R-tree child counts the format stores in 16 bits are bounded by 65535 where they are produced"""
+    from ..astq import calls
+    W_ = W
+    # (1) the R-tree: chunk size, full node sizes and the header's blockSize all come from one helper bounded by u16::MAX
+    h = ctx.ast.fn(W_, "rtree_block_size", required=False)
+    gi = ctx.ast.fn(W_, "get_rtreeindex")
+    wt = ctx.ast.fn(W_, "write_tree")
+    wr = ctx.ast.fn(W_, "write_rtreeindex")
+    raw = []
+    for f in (gi, wt, wr):
+        opt = [nm for nm, ty in f.params if "BBIWriteOptions" in ty][0]
+        for n in walk_no_nested_fn(f.body):
+            if n.k == "field" and up(n) == "%s.block_size" % opt:
+                raw.append((f, n))
+    if h is None or raw:
+        site = raw[0][1] if raw else gi
+        res.fail("nodeCounts/rtree-unbounded", site,
+                 "the number of children of an index node is written as a u16 (`len() as u16`) but nodes are cut with the unbounded u32 option block_size: with block_size > 65535 and "
+                 "that many sections the count wraps (65536 one-entry blocks, block_size 65536: every query returns nothing); the block size must be capped at u16::MAX "
+                 "consistently for chunking, node sizes and the header")
+    else:
+        hb = up(h.body).replace(" ", "")
+        opt = [nm for nm, ty in h.params if "BBIWriteOptions" in ty]
+        if not opt or hb not in ("{%s.block_size.min(u16::MAXasu32)}" % opt[0], "{std::cmp::min(%s.block_size,u16::MAXasu32)}" % opt[0], "{%s.block_size.min(65535)}" % opt[0]):
+            res.fail("nodeCounts/rtree-helper", h, "rtree_block_size must be min(options.block_size, u16::MAX); got %s" % up(h.body))
+        else:
+            uses = {}
+            for f in (gi, wt, wr):
+                uses[f.name] = len([c for c in walk_no_nested_fn(f.body) if c.k == "call" and up(c["func"]) == "rtree_block_size"])
+            if uses["get_rtreeindex"] < 1 or uses["write_tree"] < 2 or uses["write_rtreeindex"] < 1:
+                res.fail("nodeCounts/rtree-uses", gi, "chunking, both full node sizes and the header must all use the capped block size; uses: %s" % uses)
+            else:
+                res.ok(h, "R-tree: chunk size, full node sizes and header blockSize = min(block_size, 65535) (uses: %s)" % uses)
+    # the counts written: `X.len() as u16` where X is a chunk of the (capped) chunking, in write_tree
+    cnt = [c for c in calls(wt.body, method="write_u16")]
+    okc = [c for c in cnt if re.fullmatch(r"(sections|children)\.len\(\) as u16", up(strip(c["args"][0])))]
+    if len(cnt) != 2 or len(okc) != 2:
+        res.fail("nodeCounts/rtree-count", wt, "node counts must be the child counts of the node being written")
+    else:
+        res.ok(wt, "R-tree node counts are the child counts of the chunks (<= capped block size)")
+    res.count("u16_counts", len(cnt))
+
+
+def ob_chrom_tree_count(ctx, res):
+    """C09-N2: the chromosome B+ tree is a single leaf holding every chromosome; its count is 16 bits"""
+    from ..astq import calls
+    W_ = W
+    ct = ctx.ast.fn(W_, "write_chrom_tree")
+    c16 = [c for c in calls(ct.body, method="write_u16")]
+    if len(c16) != 1:
+        res.fail("nodeCounts/chromtree-shape", ct, "expected one 16-bit count in write_chrom_tree")
+        return
+    arg = strip(c16[0]["args"][0])
+    ot = origin(ct, arg)
+    bounded = "min(" in ot.replace(" ", "") or "try_from" in up(arg) or "try_into" in up(arg)
+    leafs = [c for c in calls(ct.body, method="write_u8")]
+    multi = any(n.k in ("for", "while", "loop") and list(calls(n["body"], method="write_u16")) for n in walk_no_nested_fn(ct.body))
+    if not bounded and not multi:
+        res.fail("nodeCounts/chromtree-u16", c16[0],
+                 "the chromosome tree is written as ONE leaf whose item count is `%s` (origin %s): with more than 65535 chromosomes the count wraps "
+                 "(65537 chromosomes: the file lists 1 chromosome and every query on the others fails); needs a multi-level tree or a refusal" % (up(arg), ot))
+    else:
+        res.ok(ct, "chromosome tree leaf counts are bounded by 65535")
